@@ -1057,7 +1057,13 @@ def c10_families(quick, kinds_table):
                            # (not "[a+rsp*1]": with scale 1 the sum is commutative, nasm and the library encode it as [rsp+a], the same address)
                            ("sp_scaled_first", "lea {r}, [{a}+4*{b}]", "R2.num == 4"), ("sp_nobase", "lea {r}, [8*{b}]", "R1.num == 4"),
                            ("sp_both", "lea {r}, [{a}+{b}]", "R1.num == 4 && R2.num == 4"),
-                           ("sp_scaled_mov", "mov [{a}+{b}*8+0x10], {r}", "R1.num == 4")):
+                           ("sp_scaled_mov", "mov [{a}+{b}*8+0x10], {r}", "R1.num == 4")) + \
+            (() if False else
+             # the same on the other operand encodings (SSE RM, VEX RVM, BMI RMV / RVM) -- round-3 seed
+             # c10-vex-three-opd-rsp-index-accepted showed that the rejection can be lost on one encoding path only
+             (("sp_scaled_sse", "paddd xmm9, [{a}+{b}*2]", "R1.num == 4"), ("sp_scaled_vex", "vpaddd ymm8, ymm9, [{a}+{b}*2]", "R1.num == 4"),
+              ("sp_scaled_bmi_rmv", "bextr r10, [{a}+4*{b}], r11", "R1.num == 4"), ("sp_both_bmi_rvm", "mulx r10, r11, [{a}+{b}]", "R0.num == 4 && R1.num == 4"),
+              ("sp_nobase_vex", "vpaddd ymm8, ymm9, [8*{b}]", "R0.num == 4"), ("sp_scaled_push", "push qword [{a}+{b}*2]", "R1.num == 4"))):
         def build(sk, text=text, cond=cond):
             regs = {}
             for piece in text.replace("{r}", "\0r\0").replace("{a}", "\0a\0").replace("{b}", "\0b\0").split("\0"):
